@@ -290,7 +290,9 @@ def run(ctx):
                    'non-trivial = at least two different threads execute lines in the schedule')
     real_proc = start_real_part()
     proof_ok = ctx.coq_props()
+    ctx.log('proofs checked: %s' % proof_ok)
     real, real_err = collect_real_part(real_proc)
+    ctx.log('real-subprocess part: %s' % ({k: v.get('ok') for k, v in real.items()} if real else real_err))
 
     jobs = corpus_jobs() + make_jobs(ctx)
     order = sorted(range(len(jobs)), key=lambda i: -size_estimate(jobs[i]))
